@@ -272,6 +272,9 @@ class Normalizer:
             # (`fn ensure(..) -> Result<()>`, `fn ok(..) -> bool`): they exist for their control flow only
             if re.match(r"^(bool|std::result::Result<\(\), .*>|std::option::Option<\(\)>)$", cb.ret_ty or ""):
                 return False
+            # verdict helpers: `fn check(..) -> Option<HtlcAcceptedResponse>` (a rejection or nothing)
+            if re.match(r"^std::option::Option<messages::HtlcAcceptedResponse>$", cb.ret_ty or ""):
+                return False
             return True
         return False
 
